@@ -2,6 +2,7 @@ package main
 
 import (
 	"fmt"
+	"go/token"
 	"regexp"
 	"strings"
 
@@ -587,6 +588,197 @@ func init() {
 				c.guards(f, call, fk+" :: measure a peer's silence", 0, guardRe("the peer's lastTouched was set", `^false\(.*\.lastTouched\.IsZero\(\)\)$`))
 			}
 			c.Check(n == 1, fk+" :: inactivity test found", w.pos(f.Pos()), "1", fmt.Sprintf("%d", n))
+		}
+	})
+}
+
+// ------------------------------------------------------------------ C13.R12
+// F51 (block sync v2). Scheduler and processor are separate state machines: when the scheduler removes a
+// peer it marks everything received from it for fetching again, and the processor must be told to drop what
+// it has queued from that peer — otherwise the block fetched again from another peer meets the stale one and
+// pcState.enqueue panics ("duplicate block enqueued"), which terminates the node. The reactor forwards
+// scPeerError{peerID} and every member of scPeersPruned{peers} to the processor. Rule: in every scheduler
+// handler, a peer handed to removePeer is named by the event the handler returns (scPeerError for that
+// peer, or a scPeersPruned list that contains it), unless the handler finishes the sync (scFinishedEv).
+// Exempt, with the reason: handleBlockProcessError — the event comes from the processor, which purged both
+// peers before sending it.
+func returnedEvent(w *World, ret *ssa.Return) (string, map[string]ssa.Value) {
+	if len(ret.Results) == 0 {
+		return "", nil
+	}
+	v := underMakeInterface(ret.Results[0])
+	if g, ok := v.(*ssa.UnOp); ok && g.Op == token.MUL {
+		if gl, isG := g.X.(*ssa.Global); isG {
+			return gl.Name(), nil
+		}
+		if al, isA := g.X.(*ssa.Alloc); isA {
+			fields := map[string]ssa.Value{}
+			for _, r := range *al.Referrers() {
+				fa, ok := r.(*ssa.FieldAddr)
+				if !ok {
+					continue
+				}
+				for _, rr := range *fa.Referrers() {
+					if st, ok := rr.(*ssa.Store); ok && st.Addr == ssa.Value(fa) {
+						fields[fieldName(fa.X.Type(), fa.Field)] = st.Val
+					}
+				}
+			}
+			name := ""
+			if nt := derefNamed(al.Type()); nt != nil {
+				name = nt.Obj().Name()
+			}
+			return name, fields
+		}
+	}
+	if nt := derefNamed(v.Type()); nt != nil {
+		return nt.Obj().Name(), nil
+	}
+	return w.expr(v), nil
+}
+
+// sliceMayHold: x is appended into the slice value p somewhere in its construction (append chains, phis),
+// or x is p[i].
+func sliceMayHold(p, x ssa.Value, d int) bool {
+	p = stripConv(p)
+	if d > 6 {
+		return false
+	}
+	if u, ok := stripConv(x).(*ssa.UnOp); ok && u.Op == token.MUL {
+		if ia, ok := u.X.(*ssa.IndexAddr); ok && sameValue(ia.X, p) {
+			return true
+		}
+	}
+	switch v := p.(type) {
+	case *ssa.Phi:
+		for _, e := range v.Edges {
+			if sliceMayHold(e, x, d+1) {
+				return true
+			}
+		}
+	case *ssa.Call:
+		if b, ok := v.Call.Value.(*ssa.Builtin); ok && b.Name() == "append" && len(v.Call.Args) == 2 {
+			if sliceMayHold(v.Call.Args[0], x, d+1) {
+				return true
+			}
+			for _, e := range sliceElems(v.Call.Args[1]) {
+				if sameValue(e, x) {
+					return true
+				}
+			}
+			return sliceMayHold(v.Call.Args[1], x, d+1)
+		}
+	}
+	return false
+}
+
+func init() {
+	register("C13", "R12", "K2+K5", "v2 scheduler: a peer handed to removePeer is named in the event the handler returns (the processor purges its queued blocks), or the sync is finished", 7, func(c *Ctx) {
+		w := c.W
+		exempt := map[string]string{
+			"handleBlockProcessError": "the event comes from the processor, which purged both peers' blocks before sending it",
+		}
+		nCalls := 0
+		for _, f := range w.methodsOf("blockchain/v2", "scheduler") {
+			if f.Parent() != nil || !strings.HasPrefix(f.Name(), "handle") || f.Name() == "handle" {
+				continue
+			}
+			ky := newKeyer()
+			for _, call := range rawCallsTo(w, f, "blockchain/v2#scheduler.removePeer") {
+				nCalls++
+				x := callArgs(call)[0]
+				key := ky.key(f, "remove peer "+w.expr(x))
+				if why, ok := exempt[f.Name()]; ok {
+					c.OK(key, w.ipos(call), "exempt: "+why)
+					continue
+				}
+				// every return the call can be followed by
+				bad := ""
+				pos := w.ipos(call)
+				cb := call.Block()
+				for _, r := range returnsOf(f) {
+					ret := r.(*ssa.Return)
+					reach := false
+					// the return is reachable from the call's block
+					qq := &pathQ{target: func(in ssa.Instruction) bool { return in == r }}
+					ci := 0
+					for i, in := range cb.Instrs {
+						if in == ssa.Instruction(call) {
+							ci = i + 1
+						}
+					}
+					if hit, _ := qq.reach(cb, ci); hit != nil {
+						reach = true
+					}
+					if !reach {
+						continue
+					}
+					name, fields := returnedEvent(w, ret)
+					switch name {
+					case "scFinishedEv":
+					case "scPeerError":
+						if fields["peerID"] == nil || w.expr(fields["peerID"]) != w.expr(x) {
+							bad, pos = "returns scPeerError for another peer", w.ipos(ret)
+						}
+					case "scPeersPruned":
+						if fields["peers"] == nil || !sliceMayHold(fields["peers"], x, 0) {
+							bad, pos = "returns scPeersPruned with a list that does not contain the removed peer", w.ipos(ret)
+						}
+					case "noOp":
+						// only where the reported list is provably empty cannot be told apart statically from
+						// "nothing was removed": accepted iff some scPeersPruned return of this handler holds x
+						ok := false
+						for _, r2 := range returnsOf(f) {
+							n2, f2 := returnedEvent(w, r2.(*ssa.Return))
+							if n2 == "scPeersPruned" && f2["peers"] != nil && sliceMayHold(f2["peers"], x, 0) {
+								// and this noOp is taken only on len(list) == 0 of that very list
+								for _, a := range dominatingAtoms(ret.Block()) {
+									if a.Kind != "cmp" || a.Op != token.EQL {
+										continue
+									}
+									lc, isCall := stripConv(a.X).(*ssa.Call)
+									k, isK := constInt(a.Y)
+									if !isCall || !isK || k != 0 {
+										continue
+									}
+									if b, isB := lc.Call.Value.(*ssa.Builtin); isB && b.Name() == "len" && sameValue(lc.Call.Args[0], f2["peers"]) {
+										ok = true
+									}
+								}
+							}
+						}
+						if !ok {
+							bad, pos = "returns noOp: the processor keeps the blocks it queued from the removed peer", w.ipos(ret)
+						}
+					default:
+						bad, pos = "returns "+name+", which does not name the removed peer", w.ipos(ret)
+					}
+				}
+				c.Check(bad == "", key, pos, "scPeerError{peer} / scPeersPruned ∋ peer / scFinishedEv", bad+": a block fetched again from another peer then meets the stale one in the processor, whose enqueue panics (duplicate block) and stops the node")
+			}
+		}
+		c.Check(nCalls >= 6, "blockchain/v2.scheduler :: removePeer sites in handlers", "-", ">= 6", fmt.Sprintf("%d", nCalls))
+		// setPeerRange removes the peer and fails; its caller reports the peer it passed
+		if g := c.fn("blockchain/v2", "scheduler.setPeerRange"); g != nil {
+			for _, call := range rawCallsTo(w, g, "blockchain/v2#scheduler.removePeer") {
+				c.Check(edgeOnlyFails(w, g, call.Block()) && w.expr(callArgs(call)[0]) == paramName(g, 1), funcKey(g)+" :: a removed peer is reported as an error of that peer", w.ipos(call), "removePeer(peerID) is followed by an error return", "the helper can remove a peer and report success")
+			}
+		}
+		if f := c.fn("blockchain/v2", "scheduler.handleStatusResponse"); f != nil {
+			for _, call := range w.callsTo(f, "blockchain/v2#scheduler.setPeerRange") {
+				for _, ea := range condEdges(f) {
+					if ea.A.Kind != "nonnil" || atomCall(ea.A) != ssa.CallInstruction(call) {
+						continue
+					}
+					succ := ea.E.From.Succs[ea.E.Succ]
+					ok := false
+					if ret, isR := succ.Instrs[len(succ.Instrs)-1].(*ssa.Return); isR {
+						name, fields := returnedEvent(w, ret)
+						ok = name == "scPeerError" && fields["peerID"] != nil && w.expr(fields["peerID"]) == w.expr(callArgs(call)[0])
+					}
+					c.Check(ok, funcKey(f)+" :: a failed range update reports that peer", w.ipos(call), "scPeerError{peerID: the peer passed}", "the error of setPeerRange (which removed the peer) is not reported for that peer")
+				}
+			}
 		}
 	})
 }
